@@ -1152,3 +1152,66 @@ Proof.
   { induction 1 as [|x l Hx Hl IH]; cbn [zsum fold_right]; [lia|]. fold (zsum l). lia. }
   apply Hnn. apply Forall_firstn. apply psizes_nonneg. exact (i_prm _ Hi).
 Qed.
+
+(* ---- the per-frame bookkeeping never outlives its frame --------------------------------------------- *)
+
+(* first_buf_len / last_buf_len / payload_len / is_contiguous are functions of the list ds of polled
+   data kept in LPoll; the poll loop is entered with ds = [] ... *)
+Lemma poll_starts_fresh s len s' buf ds : step true s (LSubmitOk len) = Some s' ->
+  st_pos s' = LPoll buf ds -> ds = [].
+Proof.
+  intros H Hp. step_cases H; sf; try congruence.
+Qed.
+
+(* ... every poll error or time-out leaves it for a position that carries nothing of the frame ... *)
+Lemma poll_error_abandons s l s' : step true s l = Some s' ->
+  (l = LPollTimeout \/ exists c, l = LPollErr c) ->
+  exists c, st_pos s' = LSend (IErr c) None /\ g_cur (st_g s') = None.
+Proof.
+  intros H [->|[c ->]]; step_cases H; sf; eauto.
+Qed.
+
+(* ... and while polling, ds is exactly what the script delivered since this iteration began *)
+Lemma bookkeeping_per_frame sc cp cb ls s buf ds : script_ok sc -> run true (init sc cp cb) ls = Some s ->
+  st_pos s = LPoll buf ds ->
+  g_consumed (st_g s) = (g_istart (st_g s) + length ds)%nat /\
+  firstn (length ds) (skipn (g_istart (st_g s)) sc) = map XData ds.
+Proof.
+  intros Hs H Hp. destruct (reach_invs _ _ _ _ _ Hs H) as [_ Hg]. exact (gi_poll _ _ Hg _ _ Hp).
+Qed.
+
+Lemma view_of_payload p v : view_of p = Ok v -> view_payload p = Ok (v_payload v).
+Proof.
+  unfold view_of. destruct (view_payload p); cbn [bind]; try discriminate.
+  destruct (view_image p); cbn [bind]; try discriminate. intros H. apply Ok_inj in H. subst v. reflexivity.
+Qed.
+
+(* what payload() shows of a delivered payload is a prefix of the payload bytes received in the
+   transfers of THAT frame: valid payload size <= bytes received for this frame, nothing else visible *)
+Lemma valid_le_received sc cp cb ls s : script_ok sc -> run true (init sc cp cb) ls = Some s ->
+  forall e p ds, In e (g_hist (st_g s)) -> a_item e = IOk p -> a_ds e = Some ds ->
+  let data := contig (psizes (a_prm e)) (removelast (tl ds)) in
+  exists pl, view_payload p = Ok pl /\ zlen pl <= zlen data /\ pl = take (zlen pl) data.
+Proof.
+  intros Hs H e p ds He Hp Hd data.
+  destruct (no_mixture_ok _ _ _ _ _ Hs H e p He Hp) as [ds' [v [Hd' [_ [Hfit [Hv Hfr]]]]]].
+  rewrite Hd in Hd'. inversion Hd'; subst ds'. clear Hd'.
+  destruct (fits_slots_inv _ _ Hfit) as [d0 [pds [dl [-> [Hpf [_ [_ [Hbt _]]]]]]]].
+  subst data. cbn [tl]. rewrite removelast_last.
+  unfold frame_item in Hfr. cbn [hd tl] in Hfr. rewrite removelast_last, last_last in Hfr.
+  destruct (parse_leader d0) as [l| |]; try discriminate.
+  destruct (parse_trailer dl) as [t| |] eqn:Et; try discriminate.
+  set (dat := contig (psizes (a_prm e)) pds) in *.
+  destruct (build l t dat (zlen dat)) as [p'| |] eqn:Eb; try discriminate.
+  destruct (view_of p') as [v'| |] eqn:Ev'; try discriminate.
+  assert (v' = v) by congruence. subst v'.
+  destruct (contig_bound _ _ Hpf) as [_ Hcb]. fold dat in Hcb.
+  pose proof (trailer_valid_nonneg _ _ Hbt Et) as Hvn.
+  destruct (build_sound l t dat (zlen dat) p' Hcb Hvn ltac:(lia) Eb)
+    as [_ [Hpb [Hpv [_ [_ [Hvr [_ [_ [_ Hvp]]]]]]]]].
+  pose proof (view_of_payload _ _ Hv) as H1. pose proof (view_of_payload _ _ Ev') as H2.
+  exists (v_payload v). split; [exact H1|].
+  unfold view_payload, slice_to in H2. rewrite Hpb in H2.
+  destruct (zlen dat <? p_valid p'); [discriminate|]. apply Ok_inj in H2.
+  rewrite <- H2. rewrite zlen_take by lia. split; [lia|reflexivity].
+Qed.
